@@ -51,25 +51,25 @@ theorem rel_append_left {e : α} {a b : Nat} (ha : a < E.length) (hb : b < E.len
 
 /-- `add(e, fill_up_cache=False)` on a caching instance: the four relation caches are wiped, the comparison
     cache is kept -/
-theorem add_nofill_inv {e : α} {s : St α} (h : InvB leq E E.length true s) :
-    InvB leq (E ++ [e]) (E ++ [e]).length true
+theorem add_nofill_inv {e : α} {s : St α} (h : InvB leq E Ghost.none true s) :
+    InvB leq (E ++ [e]) Ghost.none true
       { s with descC := [], ancC := [], chilC := [], parC := [], elems := s.elems ++ [e] } := by
-  refine ⟨by simp [h.elems], h.flag, fun _ => ?_, fun _ => ?_, fun _ => ?_⟩
+  refine InvB.ofOk (by simp [h.elems]) h.flag (fun _ => ?_) (fun _ => ?_) (fun _ => ?_)
   · intro a b r hl
     obtain ⟨h1, h2, h3⟩ := h.leqOk rfl a b r hl
     simp only [List.length_append, List.length_singleton]
-    refine ⟨by omega, by omega, fun _ _ => ?_⟩
+    refine ⟨by omega, by omega, ?_⟩
     rw [rel_append_left h1 h2]; exact h3 h1 h2
   · intro d k v hl; cases d <;> simp [St.closed] at hl
   · intro d k v hl; cases d <;> simp [St.direct] at hl
 
-theorem add_uncached_inv {e : α} {s : St α} (h : InvB leq E E.length false s) :
-    InvB leq (E ++ [e]) (E ++ [e]).length false { s with elems := s.elems ++ [e] } :=
-  ⟨by simp [h.elems], h.flag, fun e => (by cases e), fun e => (by cases e), fun e => (by cases e)⟩
+theorem add_uncached_inv {e : α} {s : St α} (h : InvB leq E Ghost.none false s) :
+    InvB leq (E ++ [e]) Ghost.none false { s with elems := s.elems ++ [e] } :=
+  InvB.ofOk (by simp [h.elems]) h.flag (fun e => (by cases e)) (fun e => (by cases e)) (fun e => (by cases e))
 
-theorem addE_nofill_run (e : α) {c : Bool} {s : St α} (h : InvB leq E E.length c s) (he : e ∉ E)
+theorem addE_nofill_run (e : α) {c : Bool} {s : St α} (h : InvB leq E Ghost.none c s) (he : e ∉ E)
     (hcase : c = false ∨ True) (fill : Bool) (hfill : c = true → fill = false) :
-    ∃ s', (addE leq ord e fill).run s = (s', .ok ()) ∧ InvB leq (E ++ [e]) (E ++ [e]).length c s' := by
+    ∃ s', (addE leq ord e fill).run s = (s', .ok ()) ∧ InvB leq (E ++ [e]) Ghost.none c s' := by
   have he' : e ∉ s.elems := by rw [h.elems]; exact he
   cases c with
   | false =>
@@ -90,35 +90,34 @@ theorem addE_dup_run (e : α) (fill : Bool) {s : St α} (he : e ∈ s.elems) :
 
 /-- what is needed from `add(e, fill_up_cache=True)` on a caching instance -/
 def AddFillOK (leq : α → α → Bool) (ord : List Nat → List Nat) (E : List α) (s : St α) (e : α) : Prop :=
-  ∃ s', (addE leq ord e true).run s = (s', .ok ()) ∧ InvB leq (E ++ [e]) (E ++ [e]).length true s'
+  ∃ s', (addE leq ord e true).run s = (s', .ok ()) ∧ InvB leq (E ++ [e]) Ghost.none true s'
 
 theorem step_spec (hpoU : PO leq U) (hord : ∀ l, (ord l).Perm l) (hnd : E.Nodup) (hU : ∀ a ∈ E, U a)
-    {c : Bool} {s : St α} (h : InvB leq E E.length c s) (op : Op α) (hok : opOk E c op = true)
+    {c : Bool} {s : St α} (h : InvB leq E Ghost.none c s) (op : Op α) (hok : opOk E c op = true)
     (haddfill : ∀ e, op = .add e true → c = true → e ∉ E → AddFillOK leq ord E s e) :
-    InvB leq (next E op) (next E op).length c (step leq ord s op).1 ∧
+    InvB leq (next E op) Ghost.none c (step leq ord s op).1 ∧
       (step leq ord s op).2 = answer leq E op := by
   have hpo : IdxPO leq E := idxPO_of hpoU hnd hU
-  have hm : E.length ≤ E.length := Nat.le_refl _
   cases op with
   | leq i j =>
     simp only [opOk, Bool.and_eq_true, decide_eq_true_eq] at hok
-    obtain ⟨s', b, hrun, hinv, hb⟩ := leqE_spec hpo hm h hok.1 hok.2
+    obtain ⟨s', b, hrun, hinv, hb⟩ := leqE_spec hpo h hok.1 hok.2
     simp only [step, M.run, hrun, next, outOf, answer, hok.1, hok.2, and_self, ↓reduceIte, hb]
     exact ⟨hinv, trivial⟩
   | closed d i =>
     simp only [opOk, decide_eq_true_eq] at hok
-    obtain ⟨s', b, hrun, hinv, hb⟩ := closedE_spec hpo hm h d hok
+    obtain ⟨s', b, hrun, hinv, hb⟩ := closedE_spec hpo h d hok
     simp only [step, M.run, hrun, next, outOf, answer, hok, ↓reduceIte]
     refine ⟨hinv, ?_⟩
     rw [sortSet_eq_of_setEq hb (pairwise_lt_filter_range _ _)]
   | direct d i =>
     simp only [opOk, decide_eq_true_eq] at hok
-    obtain ⟨s', b, hrun, hinv, hb⟩ := directE_spec hpo hm hord h d hok
+    obtain ⟨s', b, hrun, hinv, hb⟩ := directE_spec hpo hord h d hok
     simp only [step, M.run, hrun, next, outOf, answer, hok, ↓reduceIte]
     refine ⟨hinv, ?_⟩
     rw [sortSet_eq_of_setEq hb (pairwise_lt_filter_range _ _)]
   | extremes d =>
-    obtain ⟨s', b, hrun, hinv, hb⟩ := extremesE_spec hpo hm hord h d
+    obtain ⟨s', b, hrun, hinv, hb⟩ := extremesE_spec hpo hord h d
     simp only [step, M.run, hrun, next, outOf, answer, hb]
     exact ⟨hinv, trivial⟩
   | bound d S =>
@@ -134,7 +133,7 @@ theorem step_spec (hpoU : PO leq U) (hord : ∀ l, (ord l).Perm l) (hnd : E.Nodu
         simp [boundE, bind, M.bind, M.get, M.throw, this]
       simp only [step, M.run, hrun, next, outOf, answer, if_pos hn]
       exact ⟨h, trivial⟩
-    · obtain ⟨s', b, hrun, hinv, hb⟩ := boundE_spec hpo hm hord h d S hn hok
+    · obtain ⟨s', b, hrun, hinv, hb⟩ := boundE_spec hpo hord h d S hn hok
       have hall : (S.all fun i => decide (i < E.length)) = true := by
         simp only [List.all_eq_true, decide_eq_true_eq]; exact hok
       simp only [step, M.run, hrun, next, outOf, answer, hn, ↓reduceIte, hall, hb]
@@ -171,7 +170,6 @@ theorem step_spec (hpoU : PO leq U) (hord : ∀ l, (ord l).Perm l) (hnd : E.Nodu
     by_cases hi : i < E.length
     · obtain ⟨s', b, hrun, hinv⟩ := delE_spec hpo hord hi h
       simp only [step, M.run, hrun, next, outOf, answer, hi, ↓reduceIte]
-      rw [List.length_eraseIdx_of_lt hi]
       exact ⟨hinv, trivial⟩
     · have hrun := delE_error (ord := ord) (k := i) (s := s) (by rw [h.elems]; exact hi)
       simp only [step, M.run, hrun, next, outOf, answer, hi, ↓reduceIte]
@@ -201,16 +199,15 @@ theorem step_spec (hpoU : PO leq U) (hord : ∀ l, (ord l).Perm l) (hnd : E.Nodu
         rw [hidx]
         exact hrun
       simp only [step, M.run, hrun', next, hio, outOf, answer]
-      rw [List.length_eraseIdx_of_lt hi]
       exact ⟨hinv, trivial⟩
   | eqOther O =>
-    obtain ⟨s', b, hrun, hinv, hb⟩ := eqE_spec hpo hm O h
+    obtain ⟨s', b, hrun, hinv, hb⟩ := eqE_spec hpo O h
     simp only [step, M.run, hrun, next, outOf, answer, hb]
     exact ⟨hinv, trivial⟩
   | fillUp k =>
     simp only [opOk] at hok
     subst hok
-    obtain ⟨s', b, hrun, hinv⟩ := fillE_spec hpo hm hord k h
+    obtain ⟨s', b, hrun, hinv⟩ := fillE_spec hpo hord k h
     simp only [step, M.run, hrun, next, outOf, answer]
     exact ⟨hinv, trivial⟩
 
